@@ -295,7 +295,7 @@ impl Profile {
                     vec![Op::Batch(BatchSpec { name: "n".into(), deps: vec![], ctrl: CtrlData::WriteC, times: 1, multi: false, fetch_data: false, inner: vec![st(StaticData::ReadA)] })],
                     vec![Op::Batch(BatchSpec { name: "n".into(), deps: vec![], ctrl: CtrlData::Unit, times: 1, multi: true, fetch_data: false, inner: vec![st(StaticData::WriteC)] })],
                 ];
-                for ctrl in [CtrlData::Unit, CtrlData::ReadA, CtrlData::WriteC, CtrlData::OptReadA] {
+                for ctrl in [CtrlData::Unit, CtrlData::ReadA, CtrlData::WriteC, CtrlData::OptReadA, CtrlData::DerOptReadAWriteC] {
                     for inner in &inners {
                         out.push((Op::Batch(BatchSpec { name: name.clone(), deps: vec![], ctrl, times: 1, multi: false, fetch_data: false, inner: inner.clone() }), false));
                     }
